@@ -116,6 +116,39 @@ Section Registry.
     apply r_pia_won in H1. apply r_pia_won in H2. destruct H1 as (_ & A & _). destruct H2 as (B & _).
     congruence.
   Qed.
+  (* Contract of the store that the protocol models rely on: a record PERSISTS until it is overwritten or removed --
+     the passage of time alone never deletes it (no expiry on grain/actor records), and operations on other keys do
+     not touch it. The harness checks this on the real cluster code (no expiry option on the writes; a claim still
+     blocks a later NX put after the clock has advanced). *)
+  Definition touches (k : nat) (o : rop) : bool :=
+    match o with
+    | RPut k' _ | RPutIfAbsent k' _ | RRemove k' => Nat.eqb k k'
+    | _ => false
+    end.
+
+  Lemma r_persist : forall k v r o, r_get k r = Some v -> touches k o = false -> r_get k (fst (r_apply r o)) = Some v.
+  Proof.
+    intros k v r o H T. destruct o as [k'|k'|k' v'|k' v'|k']; cbn [r_apply fst touches] in *; auto.
+    - apply Nat.eqb_neq in T. rewrite r_get_put_other; auto.
+    - unfold r_put_if_absent. destruct (r_exists k' r); cbn [fst]; auto.
+      apply Nat.eqb_neq in T. rewrite r_get_put_other; auto.
+    - apply Nat.eqb_neq in T. rewrite r_get_remove_other; auto.
+  Qed.
+
+  Lemma r_persist_many : forall k v ops r, r_get k r = Some v -> forallb (fun o => negb (touches k o)) ops = true ->
+    r_get k (fold_left (fun r o => fst (r_apply r o)) ops r) = Some v.
+  Proof.
+    induction ops as [|o t IH]; simpl; intros r H F; auto.
+    apply andb_true_iff in F. destruct F as (A & B). apply negb_true_iff in A. apply IH; auto. apply r_persist; auto.
+  Qed.
+
+  (* a held claim keeps every later NX put out, whatever happens to other keys in between *)
+  Lemma r_claim_blocks : forall k v w ops r, r_get k r = Some v -> forallb (fun o => negb (touches k o)) ops = true ->
+    snd (r_put_if_absent k w (fold_left (fun r o => fst (r_apply r o)) ops r)) = false.
+  Proof.
+    intros k v w ops r H F. pose proof (r_persist_many k v ops r H F) as P.
+    unfold r_put_if_absent, r_exists. rewrite P. reflexivity.
+  Qed.
 End Registry.
 
 Arguments reg V : clear implicits.
